@@ -29,7 +29,7 @@ ASSUMPTIONS = [
 ]
 
 KINDS = gen.weighted({'add': 8, 'pack': 5, 'clean': 3, 'query': 12, 'reopen': 1})
-QUERIES = ('has', 'get', 'bulk', 'meta', 'stream', 'list')
+QUERIES = ('has', 'get', 'bulk', 'meta', 'stream', 'list', 'bulkseek')
 
 
 def strategy(tier):
@@ -172,6 +172,25 @@ def run_case(case):  # pylint: disable=too-many-locals,too-many-branches,too-man
                     except NotExistent:
                         if key in model:
                             raise viol(f'stale:{qkind}', f'{tag}({key[:6]}) raised NotExistent for an acknowledged object') from None
+                elif qkind == 'bulkseek':
+                    log.append(f'{tag}({[k[:6] for k in request]})')
+                    seen = {}
+                    with cont.get_objects_stream_and_meta(request, skip_if_missing=False) as triplets:
+                        for key, stream, meta in triplets:
+                            if stream is None:
+                                seen[key] = None
+                                continue
+                            data = model.get(key, b'')
+                            stream.read(1)
+                            back = min(len(data), 1 + op['f'] % 4)
+                            stream.seek(-back, 2)
+                            tail = stream.read()
+                            stream.seek(0)
+                            seen[key] = (stream.read(), tail, meta.size)
+                    want = {k: ((model[k], model[k][len(model[k]) - min(len(model[k]), 1 + op['f'] % 4) :], len(model[k])) if k in model else None) for k in set(request)}
+                    if seen != want:
+                        bad = [k[:6] for k in want if seen.get(k, 'absent') != want[k]]
+                        raise viol(f'stale:{qkind}', f'{tag}: seeking reads inside the bulk iteration disagree with the model for {bad}')
                 else:
                     log.append(f'{tag}()')
                     got = list(cont.list_all_objects())
@@ -197,8 +216,8 @@ def shrink(case, exc):
 
 
 def run_shard(ctx):
-    n = 150 if ctx.tier == 'quick' else 4000
-    ctx.set_budget(70 if ctx.tier == 'quick' else 2400)
+    n = 150 if ctx.tier == 'quick' else 16000
+    ctx.set_budget(70 if ctx.tier == 'quick' else 1100)
     explore(ctx, strategy(ctx.tier), run_case, n, shrink=shrink)
 
 
